@@ -233,6 +233,16 @@ theorem step_refines_ok {s : State} (hI : Inv s) (op : Op) (hz : op.refsLinked s
     simp only [step, Res.ok.injEq, true_and] at hok
     subst hok
     rfl
+  | view r =>
+    simp only [step] at hok
+    obtain ⟨h, _, hk⟩ := withField_ok hok
+    obtain ⟨a, ha⟩ := void_ok hk
+    unfold viewField at ha
+    split at ha
+    · cases ha
+    · simp only [Res.ok.injEq] at ha
+      obtain ⟨_, rfl⟩ := ha
+      rfl
 
 theorem step_inv {s : State} (hI : Inv s) (op : Op) : Inv (step .repaired s op).state := by
   by_cases h : ∃ d, op = .reopen d
